@@ -147,16 +147,34 @@ def search(prep, spec, timeout, excl=()) -> dict:
     """Fallback when the solver's candidate model does not replay: boundary-biased inputs that
     satisfy the precondition, judged by the same contract.  Bounded; never counted as proof."""
     import random
-    from replay import gen
+    from replay import gen, builders
+    from pyvc.contracts import split_unit
+    inst = split_unit(spec.get("unit", ""))[1]
     sp = spec["search"]
     rng = random.Random(sp.get("seed", 0))
     tried = satisfied = 0
     seeds = list(sp.get("seeds", []))
+    # scenario mode: when the unit is a method of a class that has a state builder, drive the real class through
+    # random client scenarios and judge every call of the method (on a copy of its arguments) with the contract
+    reg, ctx, unit, c, mod, owner, fn = prep
+    if owner is not None and owner.__name__ in builders.BUILDERS and not unit.endswith(".__init__"):
+        hit = scenario_search(prep, sp, rng, inst, timeout, excl)
+        if hit is not None:
+            return hit
     for i in range(int(sp.get("n", 200))):
         if seeds:
             inputs = seeds.pop(0)
         else:
-            inputs = {k: gen.gen(t, rng, sp.get("classes")) for k, t in sp["types"].items()}
+            inputs = {}
+            for k, t in sp["types"].items():
+                b = builders.BUILDERS.get(t.strip())
+                made = None
+                if b is not None and rng.random() < 0.85:
+                    try:
+                        made = builders.to_json(b(rng, inst), sp.get("classes") or {})
+                    except Exception:
+                        made = None
+                inputs[k] = made if made is not None else gen.gen(t, rng, sp.get("classes"))
         tried += 1
         out = judge(prep, inputs, min(timeout, 1.0), excl)
         if out["status"] in ("precondition-false", "precondition-error"):
@@ -170,6 +188,62 @@ def search(prep, spec, timeout, excl=()) -> dict:
                 out["satisfied"] = satisfied
                 return out
     return {"status": "ok", "tried": tried, "satisfied": satisfied}
+
+
+class _Found(Exception):
+    pass
+
+
+def scenario_search(prep, sp, rng, inst, timeout, excl):
+    import inspect
+    from replay import builders
+    reg, ctx, unit, c, mod, owner, fn = prep
+    mname = unit.split(".")[-1]
+    attr = mname if (not mname.startswith("__") or mname.endswith("__")) else f"_{owner.__name__.lstrip('_')}{mname}"
+    raw = owner.__dict__.get(attr)
+    if raw is None or isinstance(raw, (property, staticmethod, classmethod)):
+        return None
+    classes = sp.get("classes") or {}
+    params = [p for p in inspect.signature(raw).parameters][1:]
+    state = {"busy": False, "hit": None, "calls": 0}
+
+    def wrapper(self, *a, **kw):
+        if not state["busy"] and state["hit"] is None and state["calls"] < 4000:
+            state["busy"] = True
+            state["calls"] += 1
+            try:
+                inputs = {"self": builders.to_json(self, classes)}
+                for name, val in list(zip(params, a)) + list(kw.items()):
+                    inputs[name] = builders.to_json(val, classes)
+                out = judge(prep, inputs, min(timeout, 1.0), excl)
+                if out.get("status") == "violation":
+                    out["inputs"] = inputs
+                    state["hit"] = out
+            except Exception:
+                pass
+            finally:
+                state["busy"] = False
+            if state["hit"] is not None:
+                raise _Found()
+        return raw(self, *a, **kw)
+
+    setattr(owner, attr, wrapper)
+    try:
+        b = builders.BUILDERS[owner.__name__]
+        for _ in range(int(sp.get("n", 200))):
+            try:
+                b(rng, inst)
+            except _Found:
+                break
+            except Exception:
+                continue
+            if state["hit"] is not None:
+                break
+    finally:
+        setattr(owner, attr, raw)
+    if state["hit"] is not None:
+        state["hit"]["found_by"] = f"scenario search ({state['calls']} judged calls)"
+    return state["hit"]
 
 
 def judge(prep, inputs_json: dict, timeout: float, excl=()) -> dict:
